@@ -1,7 +1,7 @@
 """Shared machinery for the wencry verification checks: building harnesses from /repo's
 working tree, running TLC, sharded trace validation, known findings, evidence."""
 import concurrent.futures as cf
-import contextlib, fcntl, glob, hashlib, json, os, random, re, shutil, subprocess, sys, time
+import contextlib, fcntl, glob, hashlib, json, os, random, re, shutil, signal, subprocess, sys, time
 
 VERIF = os.path.dirname(os.path.dirname(os.path.abspath(__file__)))
 REPO = os.environ.get("WV_REPO", "/repo")
@@ -152,11 +152,25 @@ def run_harness(exe, args, out_path=None, timeout=600, env=None, cwd=None, stdin
     e = dict(os.environ); e.update(ASAN_ENV); e["VERIF_SEED"] = str(seed())
     if env:
         e.update(env)
+    # own process group: on a time-out every descendant goes too (a driver forks the code under test; a child that
+    # spins for ever must not outlive the check)
+    p = subprocess.Popen([exe] + [str(a) for a in args], stdout=subprocess.PIPE, stderr=subprocess.PIPE, stdin=subprocess.PIPE if stdin is not None else None,
+                         env=e, cwd=cwd, start_new_session=True)
     try:
-        r = subprocess.run([exe] + [str(a) for a in args], stdout=subprocess.PIPE, stderr=subprocess.PIPE,
-                           timeout=timeout, env=e, cwd=cwd, input=stdin)
+        out, err = p.communicate(input=stdin, timeout=timeout)
     except subprocess.TimeoutExpired:
+        try:
+            os.killpg(p.pid, signal.SIGKILL)
+        except OSError:
+            pass
+        p.communicate()
         raise Infra("harness %s timed out after %ss" % (os.path.basename(exe), timeout))
+    finally:
+        try:
+            os.killpg(p.pid, signal.SIGKILL)      # stragglers of a driver that has already returned
+        except OSError:
+            pass
+    r = subprocess.CompletedProcess([exe], p.returncode, out, err)
     if out_path:
         with open(out_path, "wb") as f:
             f.write(r.stdout)
